@@ -51,6 +51,21 @@ Proof.
   intros ->. rewrite (Hf eq_refl) in Hr. discriminate.
 Qed.
 
+(* without the hypothesis on the result: either the calls are well paired, or the run failed
+   and they are well paired up to the last call (the one that failed) *)
+Theorem C01_propagation_or_failed_partial_proof cfg w e n um : plain_env e = true ->
+  psources_rbind cfg (chain cfg (wo_fs w) n) = true ->
+  C01.propagation_ok (syscalls (v_log (mview cfg w e n um))) = true
+  \/ (v_res (mview cfg w e n um) = RFail
+      /\ C01.propagation_ok (removelast (syscalls (v_log (mview cfg w e n um)))) = true).
+Proof.
+  intros He Hp. destruct (mview_trace cfg w e n um He) as (stat & Ht & _ & Hf).
+  destruct stat.
+  - left. eapply propagation_of_trace; [exact Ht|exact Hp|discriminate].
+  - left. eapply propagation_of_trace; [exact Ht|exact Hp|discriminate].
+  - right. split; [now apply Hf|]. eapply propagation_of_trace_failed; [exact Ht|exact Hp|reflexivity].
+Qed.
+
 (* ------------------------------------------------------------------ (c) only as needed *)
 (* no import of a derived layer is mounted on the build directory itself *)
 Definition no_root_import (c : cfgT) (ch : list layer) : bool :=
